@@ -77,6 +77,15 @@ def run_config(P: Dict[str, Any], args: List[Any], cfg: Dict[str, Any]) -> Tuple
         tawazi.cfg.RUN_DEBUG_NODES = old_dbg
 
 
+def same_container_kind(a: Any, b: Any) -> bool:
+    """tuple stays tuple, list stays list, dict stays dict (subclasses such as namedtuple / OrderedDict count as their
+    base: the DAG returns an equal plain container); everything else must have the very same type."""
+    for base in (tuple, list, dict):
+        if isinstance(a, base) or isinstance(b, base):
+            return isinstance(a, base) and isinstance(b, base)
+    return type(a) is type(b)
+
+
 def obs_counter(obs: List[Any]) -> Counter:
     return Counter(repr(o) for o in obs)
 
@@ -88,7 +97,12 @@ def compare(res: Any, P: Dict[str, Any], args: List[Any], cfg: Dict[str, Any], r
         where = "building" if ex is None else "calling"
         res.viol("error-" + where, f"{where} the DAG raised {type(exc).__name__}: {str(exc)[:300]}" + ctag)
         return ex
-    if val != ref_val or type(val) is not type(ref_val):
+    foreign = prog.foreign_objects(val)
+    if foreign:
+        # comparing such a value with == would run tawazi's operator overloading inside the harness
+        res.viol("value", f"the returned value contains tawazi objects {foreign[:3]} instead of results; reference {ref_val!r}" + ctag)
+        return ex
+    if val != ref_val or not same_container_kind(val, ref_val):
         res.viol("value", f"returned {val!r}, reference {ref_val!r}" + ctag)
     got = obs_counter(prog.observations(ex))  # type: ignore[arg-type]
     want = obs_counter(R.obs)
